@@ -166,15 +166,29 @@ func init() {
 								}
 							}
 							passed := false
-							for _, r := range *call.Referrers() {
-								if c2, ok := r.(*ssa.Call); ok && c2.Common().StaticCallee() != nil && c.P.InModule(c2.Common().StaticCallee()) {
-									passed = true
+							seenV := map[ssa.Value]bool{}
+							var follow func(v ssa.Value)
+							follow = func(v ssa.Value) {
+								if seenV[v] {
+									return
 								}
-								// a set selector hands the extended set back to its caller, which encodes with it
-								if _, isRet := r.(*ssa.Return); isRet && namedOf(f.Signature.Results().At(0).Type()) == "PercentEncodeSet" {
-									passed = true
+								seenV[v] = true
+								for _, r := range *v.Referrers() {
+									if c2, ok := r.(*ssa.Call); ok && c2.Common().StaticCallee() != nil && c.P.InModule(c2.Common().StaticCallee()) {
+										passed = true
+									}
+									// a set selector hands the extended set back to its caller, which encodes with it
+									if _, isRet := r.(*ssa.Return); isRet && f.Signature.Results().Len() > 0 && namedOf(f.Signature.Results().At(0).Type()) == "PercentEncodeSet" {
+										passed = true
+									}
+									// kept in a variable first (`tr = tr.Set('%')`, built once and reused): the choice between it
+									// and the plain set is what the encoder is handed
+									if phi, ok := r.(*ssa.Phi); ok {
+										follow(phi)
+									}
 								}
 							}
+							follow(call)
 							where = c.P.Pos(call.Pos())
 							switch {
 							case has && passed:
